@@ -816,6 +816,8 @@ class Analysis:
             const0 = cstr(n.args[0]) if n.args else None
             key0 = args[0].consts if n.args else None
             if r.cls and r.cls[0] == 'builtin':
+                if a in MUTATORS and args and args[0].own == OBJ:          # object.__setattr__(cat, ...), dict.pop(token, ...), list.sort(children)
+                    self.rec_mut(a, f'{f.where}: {txt(n)}', f, n)
                 return V()          # str.join(...), dict.fromkeys(...) or a closure variable that is not bound yet in this iteration
             if r.cls and r.cls[0] == 'external':
                 return self.external(f'{r.cls[1]}.{r.cls[2] or ""}.{a}'.replace('..', '.'), a, args, n, f)
